@@ -2,13 +2,15 @@
 From FS Require Import Model.Exec Proofs.ExecProofs Proofs.ExecStats Proofs.ExecCheckerProofs Corr.C17.
 
 (* In the complete log of any execution through any stack of retry, breaker, rate limiter, bulkhead,
-   timeout, fallback and cache policies, with any script, cancellation pattern and instance state,
-   EVERY observation point (function entry/exit, every listener, completion events) reports
-   Attempts = 1 + Retries, Retries = retries started so far, Executions = function invocations
-   completed so far (rejected attempts never count as executions), and time stamps never decrease.
-   (Hedges: Model/Hedge.v, property C09; the stacks of this model contain no hedge policy.) *)
+   timeout, fallback, cache and (as the innermost policy) hedge policies, with any script, cancellation
+   pattern and instance state, EVERY observation point (function entry/exit, every listener incl.
+   OnHedge, completion events, and what hedge attempts that are still running when the execution
+   returns log afterwards) reports Attempts = 1 + Retries + Hedges, Retries = retries started so far,
+   Hedges = hedges started so far, Executions = function invocations completed so far (rejected
+   attempts never count as executions; overlapping hedge attempts count when they return), and time
+   stamps never decrease. *)
 Theorem C17_statistics_exact_at_every_observation_point : forall fuel stack now ext key b l k c script,
-  trace_ok (w_trace (snd (execute fuel stack (fresh_world now ext key b l k c script)))).
+  trace_ok (w_trace (drain (snd (execute fuel stack (fresh_world now ext key b l k c script))))).
 Proof. exact execution_statistics_exact. Qed.
 Print Assumptions C17_statistics_exact_at_every_observation_point.
 
@@ -20,7 +22,7 @@ Print Assumptions C17_every_composition_preserves_the_invariant.
 
 (* used by the correspondence: the executable checker applied to implementation logs accepts every model log *)
 Theorem C17_checker_accepts_model : forall fuel stack now ext key b l k c script,
-  let evs := rev (w_trace (snd (execute fuel stack (fresh_world now ext key b l k c script)))) in
-  stats_ok [] 0 0 (match evs with e :: _ => e_time e | [] => 0 end) evs = true.
+  let evs := rev (w_trace (drain (snd (execute fuel stack (fresh_world now ext key b l k c script))))) in
+  stats_ok [] 0 0 0 (match evs with e :: _ => e_time e | [] => 0 end) evs = true.
 Proof. exact c17_checker_accepts_model. Qed.
 Print Assumptions C17_checker_accepts_model.
